@@ -29,7 +29,7 @@ func cmdManifest() int {
 		}
 		note := p.Note
 		if note == "" {
-			note = "Trusted base: the environment models of DESIGN.md section 3 (cryptography, protobuf, time, X.509, crypto/tls contract), the SSA interpreter, cvc5/z3. Holds only within the bounds recorded in the evidence file."
+			note = "Trusted base: the environment models of DESIGN.md section 3 (cryptography, protobuf, time, X.509, crypto/tls contract), the SSA interpreter, cvc5/z3. Holds only within the bounds recorded in the evidence file. A path the engine cannot finish (content outside the string encoding, an engine error) is INCONCLUSIVE, never a pass; its solver-chosen inputs are replayed natively as a probe and only a natively failing probe is reported (DESIGN.md section 9.2)."
 		}
 		ref := p.DesignRef
 		if ref == "" {
